@@ -574,6 +574,6 @@ CLAIM = {
             "notification after the update. The three FuturesExchange handlers are interpreted on the repository's own "
             "DynamicNumpyArray tables: rejection exactly when notional/leverage exceeds the (formula-checked) available margin, "
             "no reservation left by a rejection, one row per non-reduce-only order, released by cancel/execute, margin restored "
-            "exactly; the two-asset margin formula also holds for symbols whose quote part is not the settlement currency. Not decided: multi-asset interaction beyond the formula, float drift in row matching.",
+            "exactly; the two-asset margin formula also holds for symbols whose quote part is not the settlement currency. Not decided: multi-asset interaction beyond the formula, float drift in row matching. Invalidation completeness of object-level memos in FuturesExchange / Position (R8); the available margin is read inside the fill's strategy hook and after the fill and compared with the reference account.",
     "note": "Trusted: interpreter semantics incl. the numpy table model (zeros/concatenate/delete/where/all); exact arithmetic; cells witnessed by grids.",
 }
